@@ -166,10 +166,23 @@ func c18(c *Ctx) {
 	c.ExpectAll("fullreads/ReadN-source", c.CallArgs(rn, p.PlainCalls("io.CopyN"), 1), "p0", 1, "... from the reader", "")
 	c.ErrHandled("fullreads/ReadN-error", rn, p.PlainCalls("io.CopyN"), nil, 1, "a short copy is an error, never a short result", "")
 	rfa := "internal.ReadFullAt"
-	c.GuardedPaths("fullreads/ReadFullAt-complete", rfa, func(in ssa.Instruction) bool {
-		r, ok := in.(*ssa.Return)
-		return ok && len(r.Results) == 2 && p.Render(returnedValue(r, 1)) == "nil"
-	}, [][]*Guard{{G(`\(.* < builtin\.len\(p1\)\)`, false)}}, 1, "ReadFullAt returns a nil error only when the buffer is full", "")
+	isReadAt := func(in ssa.Instruction) bool {
+		call, ok := in.(*ssa.Call)
+		return ok && call.Call.IsInvoke() && call.Call.Method.Name() == "ReadAt"
+	}
+	c.GuardedPaths("fullreads/ReadFullAt-loops", rfa, isReadAt, [][]*Guard{{G(`\(.* < builtin\.len\(p1\)\)`, true)}}, 1, "ReadFullAt keeps reading while the buffer is not full", "")
+	{
+		// the read is inside a loop: it can reach itself again
+		fn := c.F(rfa)
+		ins := Instrs(fn, isReadAt)
+		ok := len(ins) == 1 && (&Search{P: p, Fn: fn, From: ins, Tgt: isReadAt}).Run() != nil
+		d := "the ReadAt call of ReadFullAt is re-executed (a loop): a short read is followed by another read"
+		if !ok {
+			c.fail("fullreads/ReadFullAt-retries", "K4 reachability", d, "a single ReadAt may return fewer bytes than asked", "ReadAt is not on a cycle", len(ins))
+		} else {
+			c.ok("fullreads/ReadFullAt-retries", "K4 reachability", d, 1)
+		}
+	}
 	{
 		var got []string
 		for _, in := range Instrs(c.F(rfa), func(in ssa.Instruction) bool {
